@@ -1243,7 +1243,7 @@ fn tx_fee(tx: &Transaction) -> u64 {
 }
 
 /// defect flags of the tree under test, measured on the witness scenarios (DESIGN §3.2)
-fn flags_line(reps: &[(String, Report)], txv: u8) -> String {
+fn flags_line(reps: &[(String, Report)], txv: u8, fee_direct: u8) -> String {
     let find = |n: &str| reps.iter().find(|(name, _)| name.starts_with(n)).map(|(_, r)| r);
     let atr = find("corpus-w1-").and_then(|r| r.atr_first);
     let hsh = find("corpus-w2-").and_then(|r| r.atr_first);
@@ -1257,7 +1257,12 @@ fn flags_line(reps: &[(String, Report)], txv: u8) -> String {
     let privs: Vec<bool> = reps.iter().filter(|(n, _)| n.starts_with("corpus-w3-") || n.starts_with("corpus-w4")).filter_map(|(_, r)| r.priv_admitted).collect();
     let poolpriv = (!privs.is_empty() && privs.iter().all(|a| !*a)) as u8;
     // fixed (F7) = a block carrying a surplus fee transaction (w4b: a Fee-typed pool tx + the appended one) does not validate
-    let feecount = find("corpus-w4b-").and_then(|r| r.surplus_fee_verdict).map(|ok| !ok).unwrap_or(false) as u8;
+    // when the pool no longer admits Fee-typed transactions the witness cannot build such a block: the flag is then taken
+    // from the transaction suite's direct measurement (a hand-built block with a surplus Fee-typed transaction)
+    let feecount = match find("corpus-w4b-").and_then(|r| r.surplus_fee_verdict) {
+        Some(ok) => (!ok) as u8,
+        None => fee_direct,
+    };
     format!("flags atrcap={} rebhash={} poolpriv={} txv={} atrkey={} feecount={}", atrcap, rebhash, poolpriv, txv, atrkey, feecount)
 }
 
@@ -1294,7 +1299,8 @@ pub fn worker(seed: u64, tier: &str, start: usize) {
             reps.push((sc.name.clone(), rep));
             if i == n_witness - 1 && start == 0 {
                 let txv = crate::chain::calibrate().split(' ').find_map(|t| t.strip_prefix("txv=").map(|v| (v == "1") as u8)).unwrap_or(0);
-                put("F", &flags_line(&reps, txv));
+                let fee_direct = rt.block_on(crate::txv::calibrate()).fee;
+                put("F", &flags_line(&reps, txv, fee_direct));
             }
         }
     }
